@@ -327,3 +327,94 @@ Lemma treduce_ext {A B} (f g : list A -> B) mask (X : tensor A) :
   (forall idx, in_range (keep_shape mask (shape X)) idx -> f (red_elems mask X idx) = g (red_elems mask X idx)) ->
   teq (treduce f mask X) (treduce g mask X).
 Proof. intro H. split; [reflexivity|]. intros idx Hi. simpl in *. now apply H. Qed.
+
+(* ================================================================ argmax / argmin with ties: the FIRST index of the extremum *)
+Local Open Scope Z_scope.
+(* ONNX ArgMax / ArgMin (select_last_index = 0): one scan; the best so far is replaced only by a STRICTLY better element *)
+Fixpoint argscan (better : Z -> Z -> bool) (l : list Z) (i bi : nat) (bv : Z) : nat :=
+  match l with [] => bi | x :: r => if better x bv then argscan better r (S i) i x else argscan better r (S i) bi bv end.
+Definition o_argmax (l : list Z) : nat := match l with [] => 0%nat | x :: r => argscan Z.gtb r 1 0 x end.
+Definition o_argmin (l : list Z) : nat := match l with [] => 0%nat | x :: r => argscan Z.ltb r 1 0 x end.
+(* JAX argmax / argmin: the position of the first occurrence of the maximum / minimum *)
+Fixpoint index_of (v : Z) (l : list Z) : nat := match l with [] => 0%nat | x :: r => if x =? v then 0%nat else S (index_of v r) end.
+Definition jax_argmax (l : list Z) : nat := match jax_reduce_max l with Some m => index_of m l | None => 0%nat end.
+Definition jax_argmin (l : list Z) : nat := match jax_reduce_min l with Some m => index_of m l | None => 0%nat end.
+
+(* the specification both meet; it determines the index *)
+Definition first_max (l : list Z) (i : nat) : Prop :=
+  (i < length l)%nat /\ Forall (fun y => y <= nth i l 0) l /\ forall j, (j < i)%nat -> nth j l 0 < nth i l 0.
+Lemma first_max_unique l i i' : first_max l i -> first_max l i' -> i = i'.
+Proof.
+  intros (Hi & Ha & Hf) (Hi' & Ha' & Hf'). rewrite Forall_forall in Ha, Ha'.
+  destruct (Nat.lt_trichotomy i i') as [H|[H|H]]; [|exact H|].
+  - pose proof (Hf' i H). pose proof (Ha (nth i' l 0) (nth_In l 0 Hi')). lia.
+  - pose proof (Hf i' H). pose proof (Ha' (nth i l 0) (nth_In l 0 Hi)). lia.
+Qed.
+Lemma index_of_spec v : forall l, In v l ->
+  (index_of v l < length l)%nat /\ nth (index_of v l) l 0 = v /\ forall j, (j < index_of v l)%nat -> nth j l 0 <> v.
+Proof.
+  induction l as [|x l IH]; intro H; [contradiction|]. simpl. destruct (Z.eqb_spec x v) as [->|Hne].
+  - split; [lia|]. split; [reflexivity|]. intros j Hj. lia.
+  - destruct H as [H|H]; [contradiction|]. destruct (IH H) as (H1 & H2 & H3). split; [lia|]. split; [exact H2|].
+    intros [|j] Hj; [exact Hne | apply H3; lia].
+Qed.
+Lemma jax_argmax_spec l : l <> [] -> first_max l (jax_argmax l).
+Proof.
+  intro Hne. destruct l as [|x l]; [contradiction|]. unfold jax_argmax, jax_reduce_max. cbn [fold1].
+  destruct (fold_left_max_spec l x) as [Hin Hall]. set (m := fold_left Z.max l x) in *.
+  destruct (index_of_spec m (x :: l) Hin) as (H1 & H2 & H3). split; [exact H1|]. rewrite H2. split; [exact Hall|].
+  intros j Hj. rewrite Forall_forall in Hall. assert (Hjl : (j < length (x :: l))%nat) by lia.
+  pose proof (Hall _ (nth_In (x :: l) 0 Hjl)). pose proof (H3 j Hj). lia.
+Qed.
+(* the scan: invariant on the prefix already seen *)
+Lemma argscan_spec : forall r p bi bv, p <> [] -> first_max p bi -> nth bi p 0 = bv ->
+  first_max (p ++ r) (argscan Z.gtb r (length p) bi bv).
+Proof.
+  induction r as [|x r IH]; intros p bi bv Hp Hfm Hbv; simpl.
+  - now rewrite app_nil_r.
+  - destruct Hfm as (Hbi & Hall & Hfirst). rewrite Forall_forall in Hall.
+    replace (p ++ x :: r) with ((p ++ [x]) ++ r) by (rewrite <- app_assoc; reflexivity).
+    replace (S (length p)) with (length (p ++ [x])) by (rewrite app_length; simpl; lia).
+    destruct (Z.gtb_spec x bv) as [Hgt|Hle].
+    + apply IH; [now destruct p | | now rewrite app_nth2, Nat.sub_diag by lia].
+      split; [rewrite app_length; simpl; lia|]. rewrite app_nth2, Nat.sub_diag by lia. cbn [nth]. split.
+      * apply Forall_forall. intros y Hy. apply in_app_or in Hy as [Hy|[<-|[]]]; [|lia]. pose proof (Hall y Hy). lia.
+      * intros j Hj. rewrite app_nth1 by lia. pose proof (Hall _ (nth_In p 0 Hj)). lia.
+    + apply IH; [now destruct p | | now rewrite app_nth1 by lia].
+      split; [rewrite app_length; simpl; lia|]. rewrite (app_nth1 p [x] 0 Hbi). split.
+      * apply Forall_forall. intros y Hy. apply in_app_or in Hy as [Hy|[<-|[]]]; [now apply Hall | lia].
+      * intros j Hj. rewrite app_nth1 by lia. now apply Hfirst.
+Qed.
+Lemma o_argmax_spec l : l <> [] -> first_max l (o_argmax l).
+Proof.
+  intro Hne. destruct l as [|x l]; [contradiction|]. unfold o_argmax.
+  apply (argscan_spec l [x] 0%nat x); [discriminate | | reflexivity].
+  split; [simpl; lia|]. split; [constructor; [simpl; lia | constructor] | intros j Hj; lia].
+Qed.
+Theorem argmax_correct l : l <> [] -> o_argmax l = jax_argmax l.
+Proof. intro H. apply (first_max_unique l); [now apply o_argmax_spec | now apply jax_argmax_spec]. Qed.
+
+(* argmin is argmax of the negated list, on both sides *)
+Lemma argscan_opp : forall r i bi bv, argscan Z.ltb r i bi bv = argscan Z.gtb (map Z.opp r) i bi (- bv).
+Proof.
+  induction r as [|x r IH]; intros i bi bv; simpl; [reflexivity|].
+  replace (- x >? - bv) with (x <? bv) by (rewrite Z.gtb_ltb; destruct (Z.ltb_spec x bv), (Z.ltb_spec (- bv) (- x)); lia || reflexivity).
+  destruct (x <? bv); apply IH.
+Qed.
+Lemma o_argmin_opp l : o_argmin l = o_argmax (map Z.opp l).
+Proof. destruct l as [|x l]; [reflexivity|]. simpl. apply argscan_opp. Qed.
+Lemma fold_left_min_opp : forall l x, fold_left Z.min l x = - fold_left Z.max (map Z.opp l) (- x).
+Proof. induction l as [|y l IH]; intro x; simpl; [lia|]. rewrite IH. f_equal. f_equal. lia. Qed.
+Lemma index_of_opp v : forall l, index_of v l = index_of (- v) (map Z.opp l).
+Proof.
+  induction l as [|x l IH]; simpl; [reflexivity|].
+  destruct (Z.eqb_spec x v), (Z.eqb_spec (- x) (- v)); try (exfalso; lia); [reflexivity | now rewrite IH].
+Qed.
+Lemma jax_argmin_opp l : jax_argmin l = jax_argmax (map Z.opp l).
+Proof.
+  destruct l as [|x l]; [reflexivity|]. unfold jax_argmin, jax_argmax, jax_reduce_min, jax_reduce_max. cbn [map fold1].
+  rewrite fold_left_min_opp. rewrite (index_of_opp _ (x :: l)). rewrite Z.opp_involutive. reflexivity.
+Qed.
+Theorem argmin_correct l : l <> [] -> o_argmin l = jax_argmin l.
+Proof. intro H. rewrite o_argmin_opp, jax_argmin_opp. apply argmax_correct. now destruct l. Qed.
+Local Close Scope Z_scope.
